@@ -16,7 +16,7 @@ open Sge Sge.Reward Driver
     AG granter grantee kind limit exp / AR granter grantee kind
     BET uid owner amount result isMain / SUBC owner / SEND from to amt
   `-` is a nil Int / Dec / absent expiry; cons: `x` = no constraints, `-` = nil MaxBetAmount.
-  After every op: `r ok` | `r err <kind>` and the complete canonical state.
+  After every op: `r ok` | `r err` and the complete canonical state.
 -/
 
 structure St where
@@ -136,6 +136,6 @@ def stepLine (st : St) (line : String) : St × List String :=
     | some op =>
       match exec st.s op with
       | .ok s' => ({ st with s := s' }, "r ok" :: showState s')
-      | .error e => (st, s!"r err {errName e}" :: showState st.s)
+      | .error _ => (st, "r err" :: showState st.s)   -- the kind of error is not compared (wording of the Go errors is free)
 
 def main : IO Unit := runDriver ({} : St) stepLine
